@@ -203,6 +203,10 @@ static bool readUnion(Val& L, Val& R)
 static bool equalVal(const Val& a, const Val& b) { bool e = a.fin == b.fin && a.start == b.start; for (unsigned i = 0; i < NT; ++i) e &= a.t[i] == b.t[i];
   for (unsigned i = 0; i < NST; ++i) e &= (a.st[i] & ((a.start >> (i / NSYM)) & 1)) == (b.st[i] & ((b.start >> (i / NSYM)) & 1)); return e; }
 
+// lo <= v <= hi on transitions, final states and start states (start symbols not constrained)
+static bool between(const Val& v, const Val& lo, const Val& hi) { bool e = (lo.fin & ~v.fin) == 0 && (v.fin & ~hi.fin) == 0 && (lo.start & ~v.start) == 0 && (v.start & ~hi.start) == 0;
+  for (unsigned i = 0; i < NT; ++i) e &= (!lo.t[i] || v.t[i]) && (!v.t[i] || hi.t[i]); return e; }
+
 static void apply(OpKind op, unsigned i, unsigned j, unsigned a)
 {
   switch (op) {
@@ -243,7 +247,14 @@ static void apply(OpKind op, unsigned i, unsigned j, unsigned a)
     delete ures; delete umapL; delete umapR; umapL = new AutBase::StateToStateMap(); umapR = new AutBase::StateToStateMap();
     ures = new Aut(Aut::Union(*h[i], *h[j], umapL, umapR));
     bool ok = readUnion(usnapL, usnapR); CHECK(ok, 60);
+    // each part of the result, read through the reported maps, lies between the part of the operand on accepting paths and the
+    // whole operand (as in harness/C10 / C02: leaving out dead states is as correct; which start symbols are carried over is
+    // not constrained); the complete image only with -DSTRICT_IMPL.  What was read is the snapshot for the later steps.
+#ifdef STRICT_IMPL
     CHECK(equalVal(usnapL, val[i]), 61); CHECK(equalVal(usnapR, val[j]), 62);
+#else
+    CHECK(between(usnapL, withoutUseless(val[i]), val[i]), 61); CHECK(between(usnapR, withoutUseless(val[j]), val[j]), 62);
+#endif
     break; }
   }
 }
